@@ -181,6 +181,21 @@ func (lr *lifeRun) step(s string, cancelled *bool) {
 			c.client.Close()
 			lr.dropOpen(c)
 		}
+	case "junk":
+		// a frame that is not a call: the service ends the connection without a reply
+		if c := last(); c != nil {
+			c.client.SetDeadline(time.Now().Add(lifeBound))
+			c.client.Write([]byte("nul\x00"))
+			buf := make([]byte, 64)
+			for {
+				if _, err := c.client.Read(buf); err != nil {
+					break
+				}
+			}
+			lr.waitClosed(c, "it sent a frame that is not a call")
+			c.client.Close()
+			lr.dropOpen(c)
+		}
 	case "cancel":
 		lr.cancel()
 		*cancelled = true
